@@ -59,6 +59,12 @@ Qed.
 Lemma val_eq_null (v : val) : {v = VNull} + {v <> VNull}.
 Proof. destruct v; (left; reflexivity) || (right; discriminate). Qed.
 
+Lemma forallb_ext_in' {A} (p q : A -> bool) l : (forall x, In x l -> p x = q x) -> forallb p l = forallb q l.
+Proof.
+  induction l as [|a l IH]; intros H; cbn; [reflexivity|].
+  rewrite (H a (or_introl eq_refl)), IH by (intros; apply H; right; assumption). reflexivity.
+Qed.
+
 (** * one-step equations of [has_type_b] *)
 Section Eqs.
   Variable E : tsenv.
@@ -117,20 +123,35 @@ Section Eqs.
   Proof. reflexivity. Qed.
 End Eqs.
 
-(** * wrapper-exact nullability: [get_ts_type_of_type] *)
-Section Wrap.
-  Variables (o : sopts) (doc : tsdoc) (t : target) (E : tsenv).
-  Notation ht := (has_type_b E).
-  Notation rv := (ref_val o doc t).
+(** * wrapper-exact nullability: [get_ts_type_of_type]
 
-  Lemma ref_val_null nn ty : rv VNull nn ty = negb nn.
+    Generic in the denotation [P n v] of the named leaf types: [wrap_den P v nn ty] says that [v]
+    is in the denotation of the GraphQL type with normal form [ty] and outer nullability [negb nn]:
+    null iff nullable, lists element-wise, the named type by [P]. *)
+Fixpoint wrap_den (P : str -> val -> bool) (v : val) (nn : bool) (ty : nty) {struct ty} : bool :=
+  match v with
+  | VNull => negb nn
+  | _ =>
+      match ty with
+      | NList en et => match v with VList l => forallb (fun x => wrap_den P x en et) l | _ => false end
+      | NNamed n => P n v
+      end
+  end.
+
+Section Wrap.
+  Variables (E : tsenv) (P : str -> val -> bool).
+  Hypothesis P_null : forall n, P n VNull = false.
+  Notation ht := (has_type_b E).
+  Notation rv := (wrap_den P).
+
+  Lemma wrap_den_null nn ty : rv VNull nn ty = negb nn.
+  Proof. destruct ty; reflexivity. Qed.
+  Lemma wrap_den_nn v nn ty : v <> VNull -> rv v nn ty = rv v true ty.
+  Proof. destruct ty; destruct v; try reflexivity; congruence. Qed.
+  Lemma wrap_den_list l nn en et : rv (VList l) nn (NList en et) = forallb (fun x => rv x en et) l.
   Proof. reflexivity. Qed.
-  Lemma ref_val_nn v nn ty : v <> VNull -> rv v nn ty = rv v true ty.
-  Proof. destruct v; try reflexivity; congruence. Qed.
-  Lemma ref_val_list l nn en et : rv (VList l) nn (NList en et) = forallb (fun x => rv x en et) l.
-  Proof. reflexivity. Qed.
-  Lemma ref_val_list_other v en et : (forall l, v <> VList l) -> rv v true (NList en et) = false.
-  Proof. destruct v; try reflexivity. intros H; exfalso; eapply H; reflexivity. Qed.
+  Lemma wrap_den_named v n : rv v true (NNamed n) = P n v.
+  Proof. destruct v; try reflexivity. cbn. symmetry. apply P_null. Qed.
 
   Variable mapn : ident -> tstype.
   Definition core (ty : ty) : tstype := fst (ts_of_type_impl mapn ty).
@@ -154,16 +175,17 @@ Section Wrap.
     destruct (ts_of_type_impl mapn ty) as [x nb]. reflexivity.
   Qed.
 
-  Definition LeafOK (f : nat) (n : ident) : Prop :=
-    forall f', f' <= f -> forall v b, ht f' (mapn n) v = Some b -> rv v true (NNamed (iname n)) = b.
+  (** whenever the leaf type decides (with at most [f] fuel), it decides like [P] *)
+  Definition LeafOKg (f : nat) (n : ident) : Prop :=
+    forall f', f' <= f -> forall v b, ht f' (mapn n) v = Some b -> P (iname n) v = b.
 
   Definition CoreOK (ty : ty) : Prop :=
-    forall f, LeafOK f (ty_unwrapped ty) -> forall v b, ht f (core ty) v = Some b -> rv v true (ty_norm ty) = b.
+    forall f, LeafOKg f (ty_unwrapped ty) -> forall v b, ht f (core ty) v = Some b -> rv v true (ty_norm ty) = b.
   Definition GetOK (ty : ty) : Prop :=
-    forall f, LeafOK f (ty_unwrapped ty) -> forall v b,
+    forall f, LeafOKg f (ty_unwrapped ty) -> forall v b,
       ht f (get_ts_type_of_type mapn ty) v = Some b -> rv v (is_nonnull ty) (ty_norm ty) = b.
 
-  Lemma LeafOK_le f f' n : f' <= f -> LeafOK f n -> LeafOK f' n.
+  Lemma LeafOKg_le f f' n : f' <= f -> LeafOKg f n -> LeafOKg f' n.
   Proof. intros Hle H f'' Hle' v b Hh. eapply (H f''); [lia|exact Hh]. Qed.
 
   Lemma get_of_core ty : CoreOK ty -> GetOK ty.
@@ -173,13 +195,13 @@ Section Wrap.
     - eapply HC; eassumption.
     - destruct f as [|f1]; [rewrite ht_zero in H; discriminate|].
       rewrite ht_union in H. cbn [fold_right] in H.
-      assert (HL1 : LeafOK f1 (ty_unwrapped ty)) by (eapply LeafOK_le; [|exact HL]; lia).
+      assert (HL1 : LeafOKg f1 (ty_unwrapped ty)) by (eapply LeafOKg_le; [|exact HL]; lia).
       destruct (val_eq_null v) as [->|Hv].
-      + rewrite ref_val_null. cbn.
+      + rewrite wrap_den_null. cbn.
         apply obool_or_some in H as [(-> & _ & Hin)|(-> & _)]; [|reflexivity].
         exfalso. destruct f1 as [|f2]; [rewrite ht_zero in Hin; discriminate|].
         rewrite ht_null in Hin. cbn in Hin. discriminate.
-      + rewrite (ref_val_nn v false _ Hv).
+      + rewrite (wrap_den_nn v false _ Hv).
         apply obool_or_some in H as [(-> & Hc & _)|(-> & [Hc|Hin])].
         * eapply HC; eassumption.
         * eapply HC; eassumption.
@@ -190,20 +212,21 @@ Section Wrap.
   Lemma core_ok ty : CoreOK ty.
   Proof.
     induction ty as [n|ty' IH|p ty' IH]; intros f HL v b H.
-    - rewrite core_named in H. eapply (HL f); [lia|exact H].
+    - rewrite core_named in H. cbn [ty_norm]. rewrite wrap_den_named. eapply (HL f); [lia|exact H].
     - rewrite core_nonnull in H. cbn [ty_norm]. eapply IH; eassumption.
     - rewrite core_list in H. cbn [ty_norm].
       destruct f as [|f1]; [rewrite ht_zero in H; discriminate|].
       rewrite ht_array in H.
       destruct v as [| | | | | |l|fs];
         try (inversion H; subst; reflexivity).
-      rewrite ref_val_list.
+      rewrite wrap_den_list.
       eapply fold_and_sound; [|exact H].
       intros x _ b' Hx. eapply (get_of_core ty' IH f1); [|exact Hx].
-      eapply LeafOK_le; [|exact HL]. lia.
+      eapply LeafOKg_le; [|exact HL]. lia.
   Qed.
 
-  Lemma get_ok ty : GetOK ty.
+  (** wrapper-exact nullability *)
+  Theorem get_okg ty : GetOK ty.
   Proof. apply get_of_core, core_ok. Qed.
 
   (** [into_readonly] does not change the denotation of these types *)
@@ -238,3 +261,27 @@ Section Wrap.
     rewrite !ht_union. cbn [fold_right]. rewrite ro_core. reflexivity.
   Qed.
 End Wrap.
+
+(** ** instance: the reference denotation of C10 *)
+Section WrapRef.
+  Variables (o : sopts) (doc : tsdoc) (t : target) (E : tsenv).
+  Notation rv := (ref_val o doc t).
+
+  Lemma ref_val_wrap v : forall nn ty, rv v nn ty = wrap_den (fun n x => Ref o doc t n x) v nn ty.
+  Proof.
+    intros nn ty; revert v nn. induction ty as [n|en et IH]; intros v nn.
+    - destruct v; reflexivity.
+    - destruct v; try reflexivity. cbn [ref_val wrap_den].
+      apply forallb_ext_in'. intros x _. apply IH.
+  Qed.
+
+  Definition LeafOK (mapn : ident -> tstype) (f : nat) (n : ident) : Prop :=
+    LeafOKg E (fun n x => Ref o doc t n x) mapn f n.
+
+  Lemma get_ok mapn ty f : LeafOK mapn f (ty_unwrapped ty) -> forall v b,
+    has_type_b E f (get_ts_type_of_type mapn ty) v = Some b -> rv v (is_nonnull ty) (ty_norm ty) = b.
+  Proof.
+    intros HL v b H. rewrite ref_val_wrap. eapply get_okg; [|exact HL|exact H].
+    reflexivity.
+  Qed.
+End WrapRef.
